@@ -302,6 +302,11 @@ func (m *SimpleMVCC) GetV(key []byte, version int64) ([]byte, error) {
 	}
 	k := vals[0]
 	val := vals[1]
+	// 找到的 key 必须正好是 prefix + 20 位版本号: 更长的 key 属于另一个以 "key." 开头的 key
+	// (例如读取 "a" 时找到 "a.0" 的数据), 不能把它的值当作本 key 的值返回
+	if len(k) != len(prefix)+20 {
+		return nil, types.ErrNotFound
+	}
 	v, err := getVersion(k)
 	if err != nil {
 		return nil, err
